@@ -2,28 +2,19 @@
    W1 (free schedules): a party that consumes a revoke_and_ack while holding an
       unrevoked received commitment, then loses the link, rejects the
       retransmitted commitment signature (ErrSigInvalid).
-   W2 (DISCIPLINED schedule): XCut returns ErrSync although nobody lost data,
-      because process_sync maps a re-signing failure (do_sign = ErrSanity: the
-      opener cannot pay the fee of the combined cut) to SErrSync. *)
+   W2 (DISCIPLINED schedule): XCut returns ErrSanity although nobody lost data:
+      a party must re-send its revocation, owes a commitment, and the re-sign of
+      the combined cut is not payable (fee-update / add race).  Never ErrSync.
+   W3 (DISCIPLINED schedule, non-vacuity of C03_resync_inv): two reconnects, the
+      first losing both commitment signatures (one already received), the second
+      losing a revocation and re-signing; every step Ok, ends quiescent. *)
 From Coq Require Import List ZArith Bool Arith Lia.
-From LV Require Import Channel.Model Channel.Proofs Channel.Resync Channel.Discipline.
+From LV Require Import Channel.Model Channel.Proofs Channel.Resync Channel.Discipline Channel.ResyncProofs.
 Import ListNotations.
 Local Open Scope Z_scope.
 
 Definition A := true.
 Definition B := false.
-
-Fixpoint xall_ok (c : cfg) (s : xsys) (ops : list xop) : bool :=
-  match ops with
-  | [] => true
-  | o :: r => match xstep c s o with (Ok, s') => xall_ok c s' r | _ => false end
-  end.
-
-Fixpoint xall_disc (c : cfg) (s : xsys) (ops : list xop) : bool :=
-  match ops with
-  | [] => true
-  | o :: r => disciplined c s o && xall_disc c (snd (xstep c s o)) r
-  end.
 
 (* ---------- W1 ---------- *)
 Definition w1_cfg : cfg :=
@@ -67,12 +58,12 @@ Definition w2_ops : list xop :=
     XOp (ODeliver A); XOp (ORevoke A);
     XOp (ODeliver A) ].                      (* A gets B's revocation; A's own is in flight *)
 
-Example w2_disciplined_sync_error :
+Example w2_disciplined_resign_refused :
   cfg_ok w2_cfg /\
   exists s0 s, xinit w2_cfg = Some s0 /\ s = xrun w2_cfg s0 w2_ops /\
     xall_ok w2_cfg s0 w2_ops = true /\
     xall_disc w2_cfg s0 (w2_ops ++ [XCut 0 0]) = true /\
-    fst (xstep w2_cfg s (XCut 0 0)) = ErrSync /\
+    fst (xstep w2_cfg s (XCut 0 0)) = ErrSanity /\
     (* the cause: A must re-send its revocation, owes a commitment, and re-signing fails *)
     fst (fst (do_sign w2_cfg A (restore A (pA (xs s))))) = ErrSanity.
 Proof.
@@ -80,5 +71,46 @@ Proof.
   destruct (xinit w2_cfg) as [s0|] eqn:H0; [|vm_compute in H0; discriminate].
   eexists s0, _. split; [reflexivity|]. split; [reflexivity|].
   vm_compute in H0. inversion H0; subst s0; clear H0.
+  vm_compute. repeat split.
+Qed.
+
+(* ---------- W3 ---------- *)
+Definition w3_ops : list xop :=
+  [ XOp (OSend A (UAdd 50000000 500 11)); XOp (OSend B (UAdd 30000000 510 22));
+    XOp (OSend A (UFee 3000)); XOp (OSend A (UFee 3500));   (* merged in place *)
+    XOp (ODeliver B); XOp (ODeliver A); XOp (ODeliver B); XOp (ODeliver B);
+    XOp (OSign A); XOp (OSign B);
+    XOp (ODeliver B);              (* B holds A's signature, unrevoked *)
+    XCut 0 0;                      (* both signatures are lost (B's copy by restore) *)
+    XOp (ODeliver B); XOp (ODeliver B); XOp (ODeliver B);   (* add, fee, sig again *)
+    XOp (ODeliver A); XOp (ODeliver A);                     (* add, sig again *)
+    XOp (ORevoke B); XOp (ORevoke A);
+    XCut 1 0;                      (* A gets B's revocation; A's own is lost *)
+    XOp (ODeliver B); XOp (ODeliver B);                     (* A's revocation + new signature *)
+    XOp (ORevoke B); XOp (ODeliver A);
+    XOp (OSign B); XOp (ODeliver A); XOp (ORevoke A); XOp (ODeliver B) ].
+
+Definition xquiescentb (s : xsys) : bool :=
+  match qAB (xs s), qBA (xs s), lTip (pA (xs s)), rTip (pA (xs s)),
+        lTip (pB (xs s)), rTip (pB (xs s)) with
+  | [], [], None, None, None, None => true
+  | _, _, _, _, _, _ => false
+  end.
+
+Example w3_resync_ok :
+  exists s0 s, xinit w1_cfg = Some s0 /\ s = xrun w1_cfg s0 w3_ops /\ dreachable_ok w1_cfg s /\
+    xall_ok w1_cfg s0 w3_ops = true /\ xall_disc w1_cfg s0 w3_ops = true /\
+    xquiescentb s = true /\
+    lTail (pA (xs s)) = rTail (pB (xs s)) /\ rTail (pA (xs s)) = lTail (pB (xs s)) /\
+    length (own (pA (xs s))) = 2%nat /\ c_rate (lTail (pA (xs s))) = 3500 /\
+    c_nA (lTail (pA (xs s))) = 2%nat /\ c_nB (lTail (pA (xs s))) = 1%nat /\
+    c_h (lTail (pA (xs s))) = 2 /\ c_h (lTail (pB (xs s))) = 2.
+Proof.
+  destruct (xinit w1_cfg) as [s0|] eqn:H0; [|vm_compute in H0; discriminate].
+  eexists s0, _. split; [reflexivity|]. split; [reflexivity|].
+  assert (HOK : xall_ok w1_cfg s0 w3_ops = true /\ xall_disc w1_cfg s0 w3_ops = true).
+  { vm_compute in H0. inversion H0; subst s0. vm_compute. split; reflexivity. }
+  split; [apply dreachable_ok_run; [apply dro_init; exact H0|apply HOK|apply HOK]|].
+  vm_compute in H0. inversion H0; subst s0; clear H0 HOK.
   vm_compute. repeat split.
 Qed.
